@@ -3,6 +3,7 @@ package main
 import (
 	"fmt"
 	"go/token"
+	"go/types"
 	"strings"
 
 	"golang.org/x/tools/go/ssa"
@@ -22,6 +23,7 @@ func init() {
 			ruleC05R6(r)
 			ruleErrorDiscipline(r, "R7")
 			ruleFailFastOnlyWhenClosed(r, "R8")
+			ruleC05R9(r)
 		},
 	})
 }
@@ -387,9 +389,19 @@ func ruleC05R6(r *Run) {
 			var swap ssa.Instruction
 			allInstrs(cl, func(ins ssa.Instruction) {
 				if c, ok := ins.(*ssa.Call); ok {
-					if cf := c.Call.StaticCallee(); cf != nil && recvTypeName(cf) == "streamState" && strings.Contains(cf.Name(), "Swap") {
-						if v, isC := constInt(c.Call.Args[len(c.Call.Args)-1]); isC && v == resuming {
-							swap = ins
+					if cf := c.Call.StaticCallee(); cf != nil && recvTypeName(cf) == "streamState" {
+						// the helper is evaluated, not matched by name: from every status a live stream can be in
+						// (Connected, or Draining while a Close waits for acks) it must leave Resuming — a stream that
+						// stays Draining is refused by resume() and silently detached from the new connection
+						fld := p.Field("/iscp", "streamState", "current")
+						sc, ok1 := p.enumConst("/iscp", "streamStatusConnected")
+						sd, ok2 := p.enumConst("/iscp", "streamStatusDraining")
+						if fld != nil && ok1 && ok2 {
+							a1, e1 := stateAfter(c, fld, sc)
+							a2, e2 := stateAfter(c, fld, sd)
+							if e1 == "" && e2 == "" && a1 == resuming && a2 == resuming {
+								swap = ins
+							}
 						}
 					}
 				}
@@ -485,4 +497,59 @@ func ruleC05R6(r *Run) {
 		}
 	}
 	_ = token.NoPos
+}
+
+// ruleC05R9: the retry wrapper of iscp.Conn re-sends a request only when its error is ErrConnectionClosed. The wire
+// layer must therefore report "my connection went away while you were waiting" with exactly that sentinel: every
+// branch of package wire that is entered by receiving from the connection's own Done() and returns an error returns
+// ErrConnectionClosed (or an error wrapping it).
+func ruleC05R9(r *Run) {
+	r.Begin("R9", "a lost connection is reported in the retry wrapper's vocabulary: in package wire, a select branch entered by receiving from the Done() of the connection's own context (ClientConn.ctx) that returns an error returns errors.ErrConnectionClosed or an error wrapping it", 3)
+	p := r.P
+	for _, fn := range p.Funcs {
+		if fnPkgPath(fn) != modPath+"/wire" || fn.Blocks == nil || !returnsError(fn) {
+			continue
+		}
+		k := 0
+		allInstrs(fn, func(ins ssa.Instruction) {
+			sel, ok := ins.(*ssa.Select)
+			if !ok {
+				return
+			}
+			for i, st := range sel.States {
+				if st.Dir != types.RecvOnly {
+					continue
+				}
+				cx := doneCtx(st.Chan)
+				if cx == nil {
+					continue
+				}
+				own := false
+				for _, rt := range ctxRoots(cx) {
+					if hasLeaf(p.Leaves(rt, provOpts{}), "field:/wire.ClientConn.ctx") {
+						own = true
+					}
+				}
+				if !own {
+					continue
+				}
+				sb := selectStateBlock(sel, i)
+				if sb == nil {
+					continue
+				}
+				ret := firstReturnFrom(sb)
+				if ret == nil {
+					continue
+				}
+				rs := retResults(ret)
+				if len(rs) == 0 {
+					continue
+				}
+				k++
+				name := fnName(fn)
+				l := p.Leaves(rs[len(rs)-1], provOpts{})
+				r.Check(fmt.Sprintf("%s connection-done branch#%d", name, k), hasLeaf(l, "global:/errors.ErrConnectionClosed"), posOf(p, ret), name, "the error returned when the connection's own context ended derives from ["+joinLeaves(l)+"]; iscp.(*Conn).send re-sends a request only for ErrConnectionClosed, anything else fails the caller although the library is about to reconnect")
+			}
+		})
+	}
 }
